@@ -29,8 +29,8 @@ class ConclusionSelector(LogicalBinaryOperator, ABC):
     they are not duplicated across truth branches.
     """
 
-    concluded_before: Dict[bool, SeenSet] = field(
-        default_factory=lambda: {True: SeenSet(), False: SeenSet()}, init=False
+    concluded_before: Dict[bool, Dict[typing.FrozenSet[Conclusion], SeenSet]] = field(
+        default_factory=lambda: {True: {}, False: {}}, init=False
     )
 
     def update_conclusion(
@@ -53,9 +53,14 @@ class ConclusionSelector(LogicalBinaryOperator, ABC):
             k: v for k, v in output.bindings.items() if k in required_vars
         }
 
-        if not self.concluded_before[not self._is_false_].check(required_output):
+        # the same bindings can trigger the conclusions of several branches (e.g., the left and the right branch of a
+        # next rule), so what was concluded before is remembered per set of conclusions.
+        concluded_before = self.concluded_before[not self._is_false_].setdefault(
+            frozenset(conclusions), SeenSet()
+        )
+        if not concluded_before.check(required_output):
             self._conclusion_.update(conclusions)
-            self.concluded_before[not self._is_false_].add(required_output)
+            concluded_before.add(required_output)
 
     @property
     def _plot_color_(self) -> ColorLegend:
